@@ -73,7 +73,6 @@ Footprint(kind, a) ==
      [] a = 65318 -> Range(65296, 65318)                                \* NR52 power
      [] a >= 65328 /\ a <= 65343 -> Range(65328, 65343)                 \* wave RAM
      [] a = 65344 -> {65344, 65348, 65345}                              \* LCDC: LY, STAT
-     [] a = 65349 -> {65349, 65345}                                     \* LYC: STAT coincidence bit
      [] a = 65350 -> {65350} \cup Range(65024, 65279)                   \* DMA: OAM
      [] OTHER -> {a}
 
@@ -98,7 +97,6 @@ InFoot(kind, a, b) ==
      [] a = 65318 -> In(b, 65296, 65318)
      [] a >= 65328 /\ a <= 65343 -> In(b, 65328, 65343)
      [] a = 65344 -> b \in {65344, 65348, 65345}
-     [] a = 65349 -> b \in {65349, 65345}
      [] a = 65350 -> b = 65350 \/ In(b, 65024, 65279)
      [] OTHER -> b = a
 =============================================================================
